@@ -13,8 +13,9 @@ restart of a live debuggee and exit + rerun, both through the index loop of `cle
 with `run` to the initial system `{}` (no watchpoint, one thread, all debug registers zero).
 
 `Sys.threads` are the threads the tracer has registered.  A thread in `Sys.newborn` exists in the kernel but has not
-been seen by the tracer: it sits in its initial ptrace-stop, has executed nothing, and carries the cleared debug
-registers of a new Linux thread (environment assumption, sampled by the live run); the first notification about it,
+been seen by the tracer: it sits in its initial ptrace-stop, has executed nothing, and carries what Linux gives a
+new thread (`kernelNewThread`: no breakpoint armed, DR0-3 zero, DR7 reading as the parent's; environment assumption,
+probed by the live run); the first notification about it,
 whichever it is, moves it to `Sys.threads` (`C14_new_thread_inherits`).
 
 What is *not* a theorem: delivery of data breakpoints by the CPU/kernel ("every write stops once, old/new value
@@ -294,11 +295,14 @@ theorem C14_new_thread_inherits (ops : List Op) (t : Nat) (ev : Op) (hev : ev = 
   · intro ht
     have hc : s.newborn.contains t = true := by simpa using ht
     rw [hs', hc]
-    refine ⟨rfl, rfl, ?_, s.last.getD {}, rfl, ?_, ?_⟩
+    refine ⟨rfl, rfl, ?_, s.last.getD (kernelNewThread s.main), rfl, ?_, ?_⟩
     · simp [register]
     · cases hl : s.last with
       | some l => exact hinv.last l hl
-      | none => rw [hinv.lastNone hl]; exact encodes_zero
+      | none =>
+        have hm := hinv.main
+        rw [hinv.lastNone hl] at hm ⊢
+        exact encodes_kernelNew hm
     · intro l hl; simp [hl]
   · intro ht
     have hc : s.newborn.contains t = false := by simpa using ht
